@@ -72,6 +72,7 @@ class Harness:
         self.should_panic = False
         self.note = ""
         self.mustfail = None        # marker fn name: CBMC MUST report a failure located inside it
+        self.panic = None           # should_panic harness: the panic message that MUST be the (only) failure
 
     @property
     def fq(self):
@@ -101,6 +102,8 @@ def parse_annot(h, text):
             h.tier = part
         elif part.startswith("mustfail="):
             h.mustfail = part[9:]
+        elif part.startswith("panic="):
+            h.panic = part[6:]
         elif part.startswith("note="):
             h.note = part[5:]
         else:
@@ -347,6 +350,20 @@ def main(a):
                 rec["status"] = "SUCCESSFUL(expected-failure)"
                 continue
             failed = other
+        if h.should_panic and r["status"] in ("SUCCESSFUL", "FAILED"):
+            # the expected panic must be there; any OTHER failed check is a real failure of this harness
+            want = h.panic or ""
+            exp = [c for c in failed if want in c["description"]] if want else failed
+            other = [c for c in failed if c not in exp]
+            if not exp:
+                violations.append((h, r, {"description": "%s::post::panics (expected panic %r did not occur)" % (h.fns[0] if h.fns else h.name, want), "location": "", "id": ""}, "named"))
+                continue
+            if not other:
+                n_ok += len(exp)
+                rec["status"] = "SUCCESSFUL(expected-panic)"
+                continue
+            failed = other
+            r = dict(r, status="FAILED")
         if r["status"] == "SUCCESSFUL":
             continue
         if r["status"] in ("TIMEOUT", "ERROR", "MISSING", "UNKNOWN"):
@@ -358,10 +375,6 @@ def main(a):
         kinds = {}
         for c in failed:
             kinds.setdefault(classify_failure(c), []).append(c)
-        if h.should_panic and not failed:
-            # should_panic harness that did not panic
-            violations.append((h, r, {"description": h.name + "::expected_panic_missing", "location": ""}, "named"))
-            continue
         real = kinds.get("named", []) + kinds.get("contract", []) + kinds.get("safety", [])
         if not real and kinds.get("unwind"):
             undecided.append("%s [%s]: unwinding bound too small (%s)" % (h.name, r["fs"], kinds["unwind"][0]["description"]))
